@@ -178,3 +178,39 @@ C("_Tree._check", cls=TREE, params={"nextbucket": ["none", "ref"]}, returns="non
                "so_far": "forall(0, i__next, lambda j: data[j].child._next is data[j + 1].child)"}},
   ],
   props=["C18", "C03"])
+
+# ---- C02: what _Tree.keys hands to the lazy sequence denotes the requested interval -----------------
+# (typestate view: minKey / maxKey / _findbucket / _TreeItems are havocked; the clauses are about the
+# ARGUMENTS the real code passes on.  keys / values / items and their iter* forms of Tree and TreeSet
+# all go through this function.)  The bounds of the requested interval, per C02's statement:
+#   min given                      -> the converted min, flag as given, start leaf = _findbucket(converted min)
+#   min omitted (marker / None)    -> stays omitted unless exclusive; start leaf = the first leaf
+#   min omitted and excludemin     -> the overall smallest key (what minKey() returned), still exclusive
+# and symmetrically for max (which the leaves convert themselves).
+BOUND = ["marker", "none", "any"]
+KEYS_HAVOC = {"minKey": {"returns": ["K"], "rc_neutral": True}, "maxKey": {"returns": ["K"], "rc_neutral": True},
+              "_findbucket": {"returns": ["ref"], "rc_neutral": True},
+              "_TreeItems": {"returns": ["ref"], "rc_neutral": True, "raises": False}}
+MIN_GIVEN = "(min is not _marker and min is not None)"
+MAX_GIVEN = "(max is not _marker and max is not None)"
+C("_Tree.keys", cls=TREE,
+  params={"min": BOUND, "max": BOUND, "excludemin": "bool", "excludemax": "bool", "itertype": "str:iterkeys"},
+  returns=["ref", ("tuple", [])],
+  ghost={"havoc_calls": KEYS_HAVOC, "no_frame": True,
+         "at_call": {
+             "_findbucket": {"bound_converted": "(key_ok(min) and arg0 == to_key(min)) if " + MIN_GIVEN +
+                                                " else (excludemin and called('minKey') and arg0 == last_ret('minKey'))"},
+             "_TreeItems": {
+                 "flags": "arg2[2] == excludemin and arg2[3] == excludemax",
+                 "itertype": "arg1 == itertype",
+                 "min_given": "implies(" + MIN_GIVEN + ", key_ok(min) and arg2[0] == to_key(min) and arg0 is last_ret('_findbucket'))",
+                 "min_omitted": "implies(not " + MIN_GIVEN + " and not excludemin, is_omitted(arg2[0]) and arg0 is self._firstbucket)",
+                 "min_omitted_exclusive": "implies(not " + MIN_GIVEN + " and excludemin, called('minKey') and arg2[0] == last_ret('minKey') and "
+                                          "arg0 is last_ret('_findbucket'))",
+                 "max_given": "implies(" + MAX_GIVEN + ", arg2[1] == max)",
+                 "max_omitted": "implies(not " + MAX_GIVEN + " and not excludemax, is_omitted(arg2[1]))",
+                 "max_omitted_exclusive": "implies(not " + MAX_GIVEN + " and excludemax, called('maxKey') and arg2[1] == last_ret('maxKey'))",
+             }}},
+  ensures={"no_read_dependency": "rc_unchanged()"},
+  raises={"TypeError": {"bound_given": MIN_GIVEN}, "*": {"only_from_below": "old(len(self._data)) > 0"}},
+  props=["C02", "C13"])
